@@ -55,6 +55,8 @@ static inline int spec_nsub(int g) { int n = 0; for (int k = 0; k < NL; k++) if 
 int WT(extract_reqs)(NC *ncp, int num_reqs, int *req_ids, int *statuses, int *num_r_lead_reqs, int *num_r_reqs, NC_req **get_list,
                      int *num_w_lead_reqs, int *num_w_reqs, NC_req **put_list)
 __CPROVER_assigns(*num_r_lead_reqs, *num_r_reqs, *get_list, *num_w_lead_reqs, *num_w_reqs, *put_list, g_extract_ret, __CPROVER_object_whole(ncp->put_lead_list))
+/* "all NC errors are negative" (req_commit negates the value) */
+__CPROVER_ensures(__CPROVER_return_value <= 0 && __CPROVER_return_value > -1024)
 __CPROVER_ensures(g_extract_ret == __CPROVER_return_value && *num_r_lead_reqs == 0 && *num_r_reqs == 0 && *get_list == NULL)
 __CPROVER_ensures(*num_w_lead_reqs == spec_nsel(NL) && *num_w_reqs == spec_nsub(NL))
 __CPROVER_ensures(ncp->put_lead_list[0].flag == (old_lead[0].flag | (g_sel[0] ? NC_REQ_TO_FREE : 0)) && ncp->put_lead_list[0].id == old_lead[0].id && ncp->put_lead_list[0].buf == old_lead[0].buf &&
